@@ -541,6 +541,44 @@ theorem C43_row_quser_override_counterexample :
     rowRequestHTTP st ['a', 'l'] false Act.none .read true (some ['b', 'o', 'b']) ['d'] ['t'] = .forbidden ∧
     rowRequestAs st ['a', 'l'] false Act.none .read ['b', 'o', 'b'] ['d'] ['t'] = .pass := by decide
 
+/-! ### row requests inside a client transaction (`?transaction=<id>`) -/
+
+/-- the code that exists: a transaction begun on the restricted DSN `a` serves a request that names the unrestricted
+    DSN `b` in its URL; `v` holds no grant of any kind, the plain request for `a` is refused, the request through the
+    transaction passes (and its SQL runs on `a`'s database) -/
+theorem C43_tx_foreign_dsn_counterexample :
+    let st := writeDSN (writeDSN St.init ['a'] true) ['b'] false
+    readDSN st ['a'] = some true ∧ lookup st.perms ['v'] ['a'] ['t'] = [] ∧
+    rowRequest st ['v'] false Act.none .read ['a'] ['t'] = .forbidden ∧
+    rowRequestTx st ['v'] false .read true ['b'] ['t'] = .pass := by decide
+
+/-- outside that class — the URL names the DSN the transaction was begun on — a request that passes on a restricted
+    DSN had the table grant for exactly (user, dsn, table) and the handler's operation -/
+theorem C43_tx_partial (st : St) (u : Name) (op : RowOp) (d t : Name)
+    (hr : readDSN st d = some true) (hp : rowRequestTx st u false op true d t = .pass) :
+    Recorded st.perms u d t [op.perm] := by
+  unfold rowRequestTx at hp
+  have : authorized st u false u d t [op.perm] = true := by
+    cases hz : authorized st u false u d t [op.perm] <;> simp_all
+  exact (C43_iff st u false u d t [op.perm] hr (by simp)).1 this
+
+example : rowRequestTx (step (run St.init exHist) (.grantDSN ['a', 'l'] ['d'] ⟨true, false, false⟩ true))
+    ['b', 'o', 'b'] false .read true ['d'] ['t'] = .pass := by decide
+
+/-! ### two overlapping grants for one record (GrantPermissions reads, decodes the body, writes the whole record) -/
+
+/-- w holds read+write; "-write" is applied completely while a "+update" request has read the record and not yet
+    written it back; the stale write-back restores write: neither order of the two grants leaves write set -/
+theorem C43_grant_lost_update_counterexample :
+    let u := ['w']; let d := ['a']; let t := ['t']
+    let ps0 := [(⟨u, d, t, false, true, true, false, false⟩ : Rec)]
+    let ps1 := (grant ps0 u d t [('-' :: nWrite)]).1
+    let ps2 := grantStale ps0 ps1 u d t [nUpdate]
+    let seq1 := (grant (grant ps0 u d t [('-' :: nWrite)]).1 u d t [nUpdate]).1
+    let seq2 := (grant (grant ps0 u d t [nUpdate]).1 u d t [('-' :: nWrite)]).1
+    (lookup ps2 u d t).map (·.write) = [true] ∧
+    (lookup seq1 u d t).map (·.write) = [false] ∧ (lookup seq2 u d t).map (·.write) = [false] := by decide
+
 /-! ### the database DSN service: the DSN cache is a transparent memo -/
 
 theorem authorized_eq_core (st : St) (su : Name) (sa : Bool) (u d t : Name) (ops : List Name) :
